@@ -1292,6 +1292,10 @@ func pickIdlePieces(t *Torrent, count int) {
 		for _, p := range t.peers {
 			fast := p.GetFast()
 			for _, i := range fast {
+				if i >= uint32(t.Pieces.Num()) {
+					// sent before the metadata was known
+					continue
+				}
 				if !t.Pieces.Complete(i) && p.GetHave(i) {
 					if add(i) {
 						return
